@@ -130,6 +130,110 @@ Fixpoint final (sa : station * app) (rs : list req) : station * app :=
   | r :: rest => final (fst (step sa r)) rest
   end.
 
+(* ---- concurrency (seed C17-11) ------------------------------------------------
+   The repetition threads of a station and the caller's threads of its requests run
+   concurrently. Two things may then differ from the run in request order above.
+
+   (1) Allocation order. Requests made at the same instant may reach
+       next_sequence_number in any order (the counter is read and advanced under a
+       lock, so each call gets the next number). [run_alloc] is [run] with the
+       allocation order made explicit: ranks k = how many calls of the station
+       preceded the call of the k-th request. Everything else of an event is computed
+       from its own request and the application state, as in [step]. *)
+Definition seq_at (s : station) (r : Z) : Z := (st_seq s + r) mod SEQ_MOD.
+
+Definition event_with (sid seq : Z) (a : app) (r : req) : app * event :=
+  match r with
+  | Ev t0 olat olon i T =>
+      let a' := app_update a olat olon in
+      (a', {| ev_kind := 0; ev_seq := seq; ev_lat := a_lat a'; ev_lon := a_lon a';
+              ev_txs := map (fun off => send_at sid seq (a_lat a') (a_lon a') (t0 + off))
+                            (schedule i T) |})
+  | Crw t0 lat lon ok =>
+      (a, {| ev_kind := 1; ev_seq := seq; ev_lat := lat; ev_lon := lon;
+             ev_txs := if ok then [send_at sid seq lat lon t0] else [] |})
+  end.
+
+Fixpoint run_alloc (s : station) (a : app) (rs : list req) (ranks : list Z) : list event :=
+  match rs with
+  | [] => []
+  | r :: rest =>
+      let '(a', e) := event_with (st_id s) (seq_at s (hd 0 ranks)) a r in
+      e :: run_alloc s a' rest (tl ranks)
+  end.
+
+(* an event without its numbers: kind, position and every field of every hand-over
+   except the sequence number *)
+Definition tx_unnumbered (x : tx) : list Z :=
+  let m := tx_msg x in
+  [tx_time x; tx_port x; tx_shape x; tx_area_lat x; tx_area_lon x; tx_a x; tx_b x; tx_angle x;
+   d_hdr_station m; d_orig_station m; d_ref m; d_lat m; d_lon m].
+Definition event_unnumbered (e : event) : Z * Z * Z * list (list Z) :=
+  (ev_kind e, ev_lat e, ev_lon e, map tx_unnumbered (ev_txs e)).
+
+(* (2) Construction of a DENM, step by step. One repetition (or one collision risk
+       request) builds its message in four steps:
+         DecentralizedEnvironmentalNotificationMessage()  a white DENM - a dict of its own,
+                                                          nested dicts included
+         fullfill_with_vehicle_data                       station id (header, action id),
+                                                          the event's sequence number
+         fullfill_with_denrequest / _collision_risk_warning   reference time = clock,
+                                                          event position of the request
+         transmit_denm                                    encode, hand over
+       The threads of different requests may be switched between any two steps (and
+       between any two lines inside them). [interleave] runs the constructions that are
+       in progress at one instant in an arbitrary order of steps: the k-th element of
+       the order names the construction that makes its next step. The state of a
+       construction is its own message: nothing of it is shared (Proofs:
+       construction_private shows the interleaving is then irrelevant; the tie runs the
+       real code with its threads suspended between lines). *)
+Record job := { j_sid : Z; j_seq : Z; j_now : Z; j_lat : Z; j_lon : Z }.
+
+Inductive build :=
+| B_new
+| B_white (m : denm)
+| B_vehicle (m : denm)
+| B_request (m : denm)
+| B_sent (x : tx).
+
+Definition white_denm : denm :=
+  {| d_hdr_station := 0; d_orig_station := 0; d_seq := 0; d_ref := 0;
+     d_lat := 900000001; d_lon := 1800000001 |}.
+
+Definition build_step (j : job) (b : build) : build :=
+  match b with
+  | B_new => B_white white_denm
+  | B_white m =>
+      B_vehicle {| d_hdr_station := j_sid j; d_orig_station := j_sid j; d_seq := j_seq j;
+                   d_ref := d_ref m; d_lat := d_lat m; d_lon := d_lon m |}
+  | B_vehicle m =>
+      B_request {| d_hdr_station := d_hdr_station m; d_orig_station := d_orig_station m;
+                   d_seq := d_seq m; d_ref := its_of_utc (j_now j);
+                   d_lat := j_lat j; d_lon := j_lon j |}
+  | B_request m => B_sent (transmit (j_now j) m)
+  | B_sent x => B_sent x
+  end.
+
+Fixpoint upd {A} (k : nat) (v : A) (l : list A) : list A :=
+  match l, k with
+  | [], _ => []
+  | _ :: t, O => v :: t
+  | h :: t, S k' => h :: upd k' v t
+  end.
+
+Fixpoint interleave (js : list job) (bs : list build) (order : list nat) : list build :=
+  match order with
+  | [] => bs
+  | k :: rest =>
+      match nth_error js k, nth_error bs k with
+      | Some j, Some b => interleave js (upd k (build_step j b) bs) rest
+      | _, _ => interleave js bs rest
+      end
+  end.
+
+Fixpoint build_steps (n : nat) (j : job) (b : build) : build :=
+  match n with O => b | S m => build_steps m j (build_step j b) end.
+
 (* ---- wire image of the coordinates (UPER constrained whole numbers) --------
    Latitude (-900000000..900000001) 31 bits, Longitude (-1800000000..1800000001)
    32 bits, AltitudeValue (-100000..800001) 20 bits: value - lower bound. *)
@@ -175,7 +279,12 @@ Definition rx_wire (m : mgmt) (ulat ulon ualt : Z) : ldm_loc :=
             (14 with both stations)
    cmd 3: wire image: lat lon alt      -> [ulat; ulon; ualt]
    cmd 4: reception: ulat ulon ualt    -> [lat; lon; alt; radius]
-   cmd 5: cdiv a b                     -> [ceil] *)
+   cmd 5: cdiv a b                     -> [ceil]
+   cmd 6: run_alloc; args as cmd 2, followed by n ranks (allocation order)
+          -> per event as cmd 2 (no final state)
+   cmd 7: interleave; args = n, then n jobs of 5 integers sid seq now lat lon, then the
+          order (indices) -> per job: steps done (0..4, 4 = handed over), then the 14
+          integers of the hand-over (zeros while not handed over) *)
 Definition oz (has v : Z) : option Z := if z2b has then Some v else None.
 
 Fixpoint decode_reqs (n : nat) (a : list Z) : list req :=
@@ -201,6 +310,22 @@ Definition mgmt_dummy : mgmt :=
      m_lat := 0; m_lon := 0; m_alt := 0; m_awareness := None; m_direction := None;
      m_validity := None; m_interval := None; m_station_type := 0 |}.
 
+Fixpoint decode_jobs (n : nat) (a : list Z) : list job :=
+  match n with
+  | O => []
+  | S k => {| j_sid := arg 0 a; j_seq := arg 1 a; j_now := arg 2 a; j_lat := arg 3 a; j_lon := arg 4 a |}
+           :: decode_jobs k (skipn 5 a)
+  end.
+
+Definition flat_build (b : build) : list Z :=
+  match b with
+  | B_new => 0 :: repeat 0 14%nat
+  | B_white _ => 1 :: repeat 0 14%nat
+  | B_vehicle _ => 2 :: repeat 0 14%nat
+  | B_request _ => 3 :: repeat 0 14%nat
+  | B_sent x => 4 :: flat_tx x
+  end.
+
 Definition dispatch (cmd : Z) (a : list Z) : list Z :=
   if cmd =? 1 then schedule (arg 0 a) (arg 1 a)
   else if cmd =? 2 then
@@ -214,4 +339,13 @@ Definition dispatch (cmd : Z) (a : list Z) : list Z :=
     let l := rx_wire mgmt_dummy (arg 0 a) (arg 1 a) (arg 2 a) in
     [l_lat l; l_lon l; l_alt l; l_radius l]
   else if cmd =? 5 then [cdiv (arg 0 a) (arg 1 a)]
+  else if cmd =? 6 then
+    let s := {| st_id := arg 0 a; st_seq := arg 1 a |} in
+    let n := Z.to_nat (arg 4 a) in
+    let rs := decode_reqs n (skipn 5 a) in
+    flat_map flat_event (run_alloc s {| a_lat := arg 2 a; a_lon := arg 3 a |} rs (skipn (5 + 9 * n)%nat a))
+  else if cmd =? 7 then
+    let n := Z.to_nat (arg 0 a) in
+    let js := decode_jobs n (skipn 1 a) in
+    flat_map flat_build (interleave js (map (fun _ => B_new) js) (map Z.to_nat (skipn (1 + 5 * n)%nat a)))
   else [].
